@@ -22,8 +22,9 @@ def _inl(f, callee, t):
     return False
 
 
-def _summ(db, f):
-    return fwd.summarize(f, db=db, inline_pred=_inl, extra_forward=lambda a, b: None, roles={})
+def _summ(db, f, roles=None):
+    # parameters are named by position (roles), never by the identifier the source happens to use
+    return fwd.summarize(f, db=db, inline_pred=_inl, extra_forward=lambda a, b: None, roles=roles or {})
 
 
 def _links_rewritten(s):
@@ -114,7 +115,7 @@ def check_unlink(run, db):
         if f is not None:
             n += 1
             probs = []
-            for s in _summ(db, f):
+            for s in _summ(db, f, {0: 'mem', 1: 'size'}):
                 if s.end != 'return':
                     continue
                 cw = _cap_writes(s)
@@ -129,10 +130,21 @@ def check_unlink(run, db):
                 if not _links_rewritten(s):
                     probs.append('no links written')
             # the linking loop / helper runs over the same count
-            txt = ' '.join(sym.canon(b['term']['cond']) for b in f.blocks.values() if b.get('term') and isinstance(b['term'].get('cond'), dict))
+            count_dids = set()
+            for e in f.events():
+                if e['ev'] == 'decl':
+                    for v in e['vars']:
+                        if v.get('init') is not None and sym.canon(v['init'], {0: 'mem', 1: 'size'}) == '($size / this.node_size_)':
+                            count_dids.add(v['did'])
+            bounded = False
+            for b in f.blocks.values():
+                if b.get('term') and isinstance(b['term'].get('cond'), dict):
+                    for st in subterms(b['term']['cond']):
+                        if isinstance(st, dict) and st.get('k') == 'local' and st.get('did') in count_dids:
+                            bounded = True
             helper = [t for e, t in flow.call_events(f) if t.get('short') == 'xor_link_block']
-            if 'no_nodes' not in txt and not helper:
-                probs.append('the linking loop is not bounded by the node count')
+            if not bounded and not helper:
+                probs.append('the linking loop is not bounded by the node count size / node_size_')
             _emit(run, 'R-UNLINK', f, db, probs, site('insert_impl'), 'links size/node_size_ nodes and counts them')
         # ---- deallocate(ptr, n): ceil(n / node_size) nodes go back
         f = by.get(('deallocate', 2))
@@ -141,7 +153,7 @@ def check_unlink(run, db):
             n += 1
             probs = []
             found = False
-            for s in _summ(db, f):
+            for s in _summ(db, f, {0: 'ptr', 1: 'n'}):
                 if s.end != 'return':
                     continue
                 for c in s.calls:
